@@ -27,6 +27,7 @@ CONFIG = {'assumptions': [
     'reverse order (must give the same entries and chains)',
     'ELFFile keeps no state between section instantiations in the model (the code has none); the combined stream '
     'pins that by instantiating several version sections from one ELFFile in both orders',
+    'the implementation runs under the default recursion limit (1000) of a stock interpreter',
     'an entry "carries" an index when its vd_ndx / vna_other field EQUALS it (hidden bit included, no masking)']}
 LEVEL = {'text': 'Machine-checked theorems, for ALL images and header tables satisfying a boolean layout predicate '
                  '(record i sits at the offset reached by following the next/aux displacements; anything else in the '
@@ -60,7 +61,9 @@ RULE = ('cases: version-definition / version-requirement sections with 0..14 ent
         'version-symbol tables of 0..300 symbols with arbitrary index/hidden bit, reserved values, strides >= entry size, '
         'over symbol tables of the same or a larger (0..4 more) symbol count; '
         'both classes and byte orders, sections and header table in random file order at unaligned offsets, names 0..130 '
-        'bytes of 1-4 byte UTF-8; a combined stream: ONE file holding .gnu.version_d, .gnu.version_r and .gnu.version '
+        'bytes of 1-4 byte UTF-8; a depth-and-size stream (per kind one entry with ~1010 (thorough ~3000) auxiliaries and '
+        'one chain of as many single-auxiliary entries, the implementation observed under CPython\'s default '
+        'recursion limit of 1000); a combined stream: ONE file holding .gnu.version_d, .gnu.version_r and .gnu.version '
         '(+ symbol table), each linked to its own string table (independent tables, same-layout twins with different '
         'strings at the same offsets, or partly shared), the three sections instantiated from ONE ELFFile object '
         '(get_section / iter_sections / get_section_by_name) in a random order and, on a second ELFFile, in the '
@@ -262,7 +265,7 @@ def _gen_chain_case(rng, kind, big, cfg=None, tab=None, counts=None, mode=None):
 def _gen_long_case(rng, kind, K, M):
     """depth and size: ONE entry with K auxiliaries (vd_cnt / vn_cnt are 16-bit fields) in a chain of M entries with
     one auxiliary each; a reader whose stack or time grows with the chain length shows here.  Few index queries
-    (each walks the whole chain): one carried by the deepest record, one absent, one at the front."""
+    (a miss or a deep hit walks the whole chain): the index carried by the deepest record and one at the front."""
     at = rng.randrange(M + 1)
     counts = [1] * at + [K] + [1] * (M - at)
     c = _gen_chain_case(rng, kind, False, counts=counts, mode=rng.choice(['dense', 'interleaved']))
@@ -280,10 +283,9 @@ def _gen_long_case(rng, kind, K, M):
                 if a[2] == 0x7abc and a is not ents[at][-1][-1]:
                     a[2] = 3
         deep, front = 0x7abc, ents[0][-1][0][2]
-    present = {e[2] for e in ents} if kind == 'verdef' else {a[2] for e in ents for a in e[-1]}
-    absent = next(x for x in (0x7abd, 0x7abe, 0x7abf, 0x6001, 0x6002) if x not in present)
     # every query that misses (or hits the deepest record) walks the whole chain in model and implementation
-    c[7] = sorted({deep, front, absent} if K > M else {deep, front})
+    # (quick tier budget: the long entry chain is walked by iter_versions / has_indexes, one front query)
+    c[7] = sorted({deep, front} if K > M else {front})
     # string table and target first in the file: the extracted model's reads cost O(file offset) each
     sec_order, file_order, gaps = c[6]
     c[6] = [sec_order, ['strtab', 'target'] + [r for r in file_order if r not in ('strtab', 'target')], gaps]
